@@ -88,6 +88,11 @@ type PutSpec struct {
 	Encoding  string // header | unsigned | stream-signed | stream-signed-trailer | stream-unsigned-trailer | presign
 	Chunks    []int
 	Trailer   string
+	// Ck (createUpload only): the upload is created with x-amz-checksum-algorithm <Ck> and
+	// x-amz-checksum-type FULL_OBJECT (crc32 | crc32c | crc64nvme); its parts are then sent with their
+	// checksum and the completion names them. Not part of the model's input: the stored object, its ETag and
+	// metadata are the same as without.
+	Ck string `json:",omitempty"`
 }
 
 type PartRef struct {
@@ -404,6 +409,8 @@ type World struct {
 	Secrets  map[string]string // access -> secret of accounts created so far
 	Policies map[string]int    // raw policy document -> id
 	rr       int
+	ck       map[string]string // upload id -> checksum algorithm of a FULL_OBJECT upload
+	partCk   map[string]string // upload id / part number -> checksum the gateway answered for the part
 }
 
 func (w *World) addr() string {
@@ -1091,12 +1098,22 @@ func (w *World) Exec(o *Op) *Obs {
 	case "createUpload":
 		req.Method, req.Path, req.Query = "POST", kpath, "uploads"
 		w.putHeaders(&req, o.Put)
+		if o.Put != nil && o.Put.Ck != "" {
+			req.Set("x-amz-checksum-algorithm", strings.ToUpper(o.Put.Ck))
+			req.Set("x-amz-checksum-type", "FULL_OBJECT")
+		}
 		fields = func(r gw.Resp) {
 			var res struct {
 				Key      string `xml:"Key"`
 				UploadId string `xml:"UploadId"`
 			}
 			xml.Unmarshal(r.Body, &res)
+			if o.Put != nil && o.Put.Ck != "" && res.UploadId != "" {
+				if w.ck == nil {
+					w.ck, w.partCk = map[string]string{}, map[string]string{}
+				}
+				w.ck[res.UploadId] = o.Put.Ck
+			}
 			obs.NewID = res.UploadId
 			obs.Fields = append(obs.Fields, KV{"key", hx(res.Key)}, KV{"uploadid", hx(res.UploadId)})
 		}
@@ -1105,7 +1122,17 @@ func (w *World) Exec(o *Op) *Obs {
 		if o.Put != nil && o.Put.Encoding != "" {
 			req.Auth, req.Chunks, req.Trailer = o.Put.Encoding, o.Put.Chunks, o.Put.Trailer
 		}
-		fields = func(r gw.Resp) { obs.Fields = append(obs.Fields, KV{"etag", hx(r.Headers.Get("ETag"))}) }
+		if algo := w.ck[o.UpID]; algo != "" {
+			// a part of a FULL_OBJECT checksum upload carries its checksum (plain upload)
+			req.Auth, req.Chunks, req.Trailer = "header", nil, ""
+			req.Set("x-amz-checksum-"+algo, gw.ChecksumB64(algo, req.Body))
+		}
+		fields = func(r gw.Resp) {
+			if algo := w.ck[o.UpID]; algo != "" {
+				w.partCk[fmt.Sprintf("%s/%d", o.UpID, o.Num)] = r.Headers.Get("x-amz-checksum-" + algo)
+			}
+			obs.Fields = append(obs.Fields, KV{"etag", hx(r.Headers.Get("ETag"))})
+		}
 	case "uploadPartCopy":
 		req.Method, req.Path, req.Query = "PUT", kpath, fmt.Sprintf("uploadId=%s&partNumber=%d", gw.EncodeQueryValue(o.UpID), o.Num)
 		src := copySource(o.SB, o.SK, o.SrcOver)
@@ -1122,9 +1149,15 @@ func (w *World) Exec(o *Op) *Obs {
 		}
 		fields = func(r gw.Resp) {
 			var cr struct {
-				ETag string `xml:"ETag"`
+				ETag      string `xml:"ETag"`
+				CRC32     string `xml:"ChecksumCRC32"`
+				CRC32C    string `xml:"ChecksumCRC32C"`
+				CRC64NVME string `xml:"ChecksumCRC64NVME"`
 			}
 			xml.Unmarshal(r.Body, &cr)
+			if algo := w.ck[o.UpID]; algo != "" {
+				w.partCk[fmt.Sprintf("%s/%d", o.UpID, o.Num)] = map[string]string{"crc32": cr.CRC32, "crc32c": cr.CRC32C, "crc64nvme": cr.CRC64NVME}[algo]
+			}
 			obs.CopyETag = cr.ETag
 			obs.Fields = append(obs.Fields, KV{"etag", hx(cr.ETag)})
 		}
@@ -1166,12 +1199,20 @@ func (w *World) Exec(o *Op) *Obs {
 		req.Method, req.Path, req.Query = "POST", kpath, "uploadId="+gw.EncodeQueryValue(o.UpID)
 		var b bytes.Buffer
 		b.WriteString(`<CompleteMultipartUpload xmlns="http://s3.amazonaws.com/doc/2006-03-01/">`)
+		ckTag := map[string]string{"crc32": "ChecksumCRC32", "crc32c": "ChecksumCRC32C", "crc64nvme": "ChecksumCRC64NVME"}[w.ck[o.UpID]]
 		for _, p := range o.Parts {
 			fmt.Fprintf(&b, "<Part><PartNumber>%d</PartNumber><ETag>", p.Num)
 			xml.EscapeText(&b, []byte(p.ETag))
-			b.WriteString("</ETag></Part>")
+			b.WriteString("</ETag>")
+			if v := w.partCk[fmt.Sprintf("%s/%d", o.UpID, p.Num)]; ckTag != "" && v != "" {
+				fmt.Fprintf(&b, "<%s>%s</%s>", ckTag, v, ckTag)
+			}
+			b.WriteString("</Part>")
 		}
 		b.WriteString(`</CompleteMultipartUpload>`)
+		if ckTag != "" {
+			req.Set("x-amz-checksum-type", "FULL_OBJECT")
+		}
 		req.Body = b.Bytes()
 		fields = func(r gw.Resp) {
 			var cr struct {
